@@ -6,8 +6,8 @@ import Ufw.Tie.Misc
 #print axioms Ufw.Props.C17.put_chunk_exact
 #print axioms Ufw.Props.C17.put_chunk_refuses
 #print axioms Ufw.Props.C17.put_atmost_le
-#print axioms Ufw.Props.C17.sts_n_cbc_spec
 #print axioms Ufw.Props.C17.sts_n_spec
+#print axioms Ufw.Props.C17.sts_n_cbc_spec
 #print axioms Ufw.Props.C17.sts_drain_spec
 #print axioms Ufw.Props.C17.sts_drain_complete
 #print axioms Ufw.Props.C17.sts_some_aux_spec
